@@ -29,6 +29,8 @@ def worker(chk, pkg, index):
             chk.extra["packages"] = 1
             chk.extra["protocols"] = len(pr.steps)
             return
+        if pkg.namespace.startswith("Vib"):
+            eng.run_custom(shapes.varint_executions(pkg), [[("cpp", "b2b", 1)], [("cpp", "b2b", 64)], [("cpp", "b2n", 1)]])
         if pkg.namespace.startswith("Pat"):
             pats = [p.name[1:].upper() for p in pkg.protocols]
             eng.run_custom({"Q" + pt.lower(): shapes.pattern_executions(pt) for pt in pats}, [[("cpp", "b2b", 1)], [("cpp", "b2b", 2)], [("cpp", "b2n", 1)]])
@@ -46,6 +48,7 @@ def main(tier):
     packed.append((shapes.pattern_package(4 if tier == "quick" else 5)[0], []))
     packed.append((shapes.buffer_package()[0], []))
     packed.append((shapes.bigschema_package(), []))
+    packed.append((shapes.varint_package(), []))
     chk.extra["shapes"] = len(sh)
     chk.extra["depth"] = d
     chk.extra["k"] = 1 if tier == "quick" else 2
